@@ -52,15 +52,44 @@ def make_trial(trial_id, config):
     return Trial(trial_id=trial_id, config=config, creation_time=_T0)
 
 
+class StepBudgetExceeded(Exception):
+    """An API call of the code under test executed more interpreted lines than the budget: a
+    *logical* bound (deterministic, independent of machine load) standing in for 'never blocks'."""
+
+
+def call_with_step_budget(fn, budget, *a, **k):
+    import sys
+
+    n = [0]
+
+    def tracer(frame, event, arg):
+        if event == "line":
+            n[0] += 1
+            if n[0] > budget:
+                raise StepBudgetExceeded(f"more than {budget} interpreted lines in one call")
+        return tracer
+
+    old = sys.gettrace()
+    sys.settrace(tracer)
+    try:
+        return fn(*a, **k)
+    finally:
+        sys.settrace(old)
+
+
 class Port:
     """Single scheduler port: forwards calls, converts exceptions into SchedRaised."""
 
-    def __init__(self, scheduler):
+    def __init__(self, scheduler, step_budget=None):
         self.scheduler = scheduler
+        self.step_budget = step_budget
 
     def _call(self, api, *a, **k):
         try:
-            return getattr(self.scheduler, api)(*a, **k)
+            fn = getattr(self.scheduler, api)
+            if self.step_budget:
+                return call_with_step_budget(fn, self.step_budget, *a, **k)
+            return fn(*a, **k)
         except Exception as e:  # noqa: BLE001 - any raise out of the scheduler API is an observation
             raise SchedRaised(api, e) from e
 
@@ -114,6 +143,7 @@ class VTuner:
         self._starved = None
         self.order = list(p["order"]) if p.get("order") else None
         self.num_suggest_calls = 0
+        self.stop = False  # monitors may end the run (e.g. after a violation that derails the protocol)
 
     # ------------------------------------------------------------------ helpers
     def _notify(self, name, *args):
@@ -294,7 +324,7 @@ class VTuner:
             self.raised = (e.api, type(e.exc).__name__, repr(e.exc)[:300], a)
             return False
         self.n_events += 1
-        return self.raised is None
+        return self.raised is None and not self.stop
 
     def run(self):
         max_events = self.p.get("max_events", 200)
